@@ -10,6 +10,7 @@ mod c04;
 mod c05;
 mod c08;
 mod c10;
+mod c14;
 mod hist;
 mod tok;
 
@@ -29,6 +30,7 @@ fn main() {
     let rule = match args[1].as_str() {
         "C04" => c04::run_c04(&mut out, &mut rng, tier),
         "C10" => c10::run_c10(&mut out, &mut rng, tier),
+        "C14" => c14::run_c14(&mut out, &mut rng, tier),
         "C13" => c04::run_c13(&mut out, &mut rng, tier),
         "C05" => c05::run_c05(&mut out, &mut rng, tier),
         "C08" => c08::run_c08(&mut out, &mut rng, tier),
